@@ -56,6 +56,13 @@ func (vs *varStore) setClosureVar(fn *runtime.Function, name string, index int16
 	vs.closureVars[fn][name] = index
 }
 
+// isClosureVar reports whether name is a closure variable of the given
+// function.
+func (vs *varStore) isClosureVar(fn *runtime.Function, name string) bool {
+	_, ok := vs.closureVars[fn][name]
+	return ok
+}
+
 // bindScriggoPackageVar binds name to the package variable defined in Scriggo
 // located at the given index, making it available for use in pkg.
 func (vs *varStore) bindScriggoPackageVar(pkg *ast.Package, name string, index int16) {
